@@ -184,8 +184,8 @@ theorem advancing_of_nonempty (g : Grammar) (s : List Char)
     omega
 
 /-- **executable form of the side condition**: every ignorable and every repetition body of the table passes the
-    syntactic test `consumes` (Lemmas/ParseStrict.lean: token leaves, `And`s containing one, `MatchFirst`s of such, and
-    Group / Suppress / Combine / Located / Forward wrappers of such) at analysis depth `k` -/
+    syntactic test `consumes` (Lemmas/ParseStrict.lean: token leaves, `And`s containing one, `MatchFirst`s / `Or`s of
+    such, and `OneOrMore` / Group / Suppress / Combine / Located / Forward wrappers of such) at analysis depth `k` -/
 def advOk (g : Grammar) (k : Nat) : Bool :=
   g.all fun nd =>
     nd.ignore.all (consumes g k) &&
@@ -277,6 +277,15 @@ example :
         { leaf (.group 3) with mayIdx := false },                           -- 4
         { leaf (.many 4 none true) with mayIdx := false, ignore := [0] } ]  -- 5  OneOrMore(Group(Word + ","))
     rankOk g id = true ∧ advOk g 3 = true := by
+  decide
+
+/-- `ZeroOrMore(Keyword("if") ^ OneOrMore(CaselessLiteral("x")))` passes; `ZeroOrMore(Opt(Literal))` and
+    `ZeroOrMore(Empty)` are (rightly) not accepted by the test -/
+example :
+    advOk [ leaf (.keyword ['i', 'f'] ['a', 'b'] false), leaf (.caselessLit ['X'] ['x']), leaf (.many 1 none true),
+            leaf (.or [0, 2]), leaf (.many 3 none false) ] 3 = true ∧
+    advOk [ leaf (.lit ['x', 'y']), leaf (.opt 0 none), leaf (.many 1 none false) ] 5 = false ∧
+    advOk [ leaf .empty, leaf (.many 0 none false) ] 5 = false := by
   decide
 
 /-- hence every `_parse` call on the example grammar terminates with fuel 4, on every input -/
